@@ -116,7 +116,9 @@ func buildChain(t *rapid.T, n *node.Node, k int, salt uint32) []*blockchain.Bloc
 
 func TestRPCHandlers(t *testing.T) {
 	rapid.Check(t, func(t *rapid.T) {
-		cache := rapid.SampledFrom([]int{4, 20, 515}).Draw(t, "cache")
+		// 120: a cache larger than the 103-block answer cap but smaller than the chain - a served segment can then start below the
+		// cached window and end inside it (added after seeded change C19-u: a cache fast path silently skipped the uncached part)
+		cache := rapid.SampledFrom([]int{4, 20, 120, 515}).Draw(t, "cache")
 		n, err := node.New(node.Config{Genesis: node.EqualGenesis(4), MaxBlockCache: cache, ListenAddr: listenAddr(rapid.IntRange(0, 50).Draw(t, "ip"))})
 		if err != nil {
 			t.Fatalf("node: %v", err)
@@ -125,6 +127,10 @@ func TestRPCHandlers(t *testing.T) {
 		length := rapid.SampledFrom([]int{3, 30, 110, 260}).Draw(t, "length")
 		if !evid.Thorough() && length > 110 && rapid.IntRange(0, 3).Draw(t, "long") != 0 {
 			length = 110
+		}
+		if cache == 120 {
+			length = 260
+			evid.R.Label("handlers-chain-longer-than-a-cache-above-the-answer-cap", 1)
 		}
 		// The expected chain is the harness's OWN record: the blocks returned by Apply, minus the ones it removed, in
 		// order (blocks[i] has height i+1). The engine's idea of its last block (Chain.LastBlock = the block cache, which
